@@ -307,7 +307,7 @@ theorem foldl_max_le (ports : List Nat) (init : Option Nat) (hi : Nat)
 theorem newInWks_length (addr : List UInt8) (proto : Nat) (ports : List Nat) (h4 : addr.length = 4)
     (hp : ∀ p ∈ ports, p ≤ 65535) :
     5 ≤ (newInWks addr proto ports).length ∧ (newInWks addr proto ports).length ≤ 65535 := by
-  unfold newInWks
+  unfold newInWks newInWksWith
   simp only [List.length_append, List.length_cons, Array.length_toList, foldl_modify_size, Array.size_replicate, h4]
   split
   · next hi heq =>
